@@ -680,6 +680,8 @@ func (u *Unit) execAppend(st *State, call *ssa.CallCommon, args []Value, pos tok
 		u.ctx.Assert(Implies(st.G, Term{q, SBool}), "append-copy")
 		if len(path) == 0 {
 			// forward trigger: an index of the old slice yields the corresponding cell of the new array
+			sArr, sOff := u.ctx.Atom("sarr", s.Arr), u.ctx.Atom("soff", s.Off)
+			s := SliceV{sArr, sOff, s.Len, s.Elem}
 			fq := fmt.Sprintf("(forall ((i Int)) (! (=> (and (<= 0 i) (< i %s)) (= (select %s (ea %s i)) (select %s (ea %s (+ %s i))))) :pattern ((ea %s (+ %s i)))))",
 				s.Len.S, n.S, r.S, arr.S, s.Arr.S, s.Off.S, s.Arr.S, s.Off.S)
 			u.ctx.Assert(Implies(st.G, Term{fq, SBool}), "append-copy-forward")
